@@ -1,6 +1,7 @@
 import SlotVerif.Props.C08
 import SlotVerif.Props.C01
 import SlotVerif.Proofs.LookupEquiv
+import SlotVerif.Proofs.LookupFind
 /-!
 # C09 — Insertion is canonical: known terms create nothing, lookup agrees with add
 
@@ -97,5 +98,16 @@ theorem lookup_isSome_equivariant {s : Snap} (hok : ufOK s = true) {ρ : Nat →
 example : ufOK SV.C08.demo = true ∧
     lookup SV.C08.demo ⟨0, [.slot 40, .slot 44]⟩ = some ⟨1, [(9, 40)]⟩ ∧
     lookup SV.C08.demo (Node.rename (· + 100) ⟨0, [.slot 40, .slot 44]⟩) = some ⟨1, [(9, 140)]⟩ := by decide
+
+/-- **stale handles do not matter**: an e-node built from any handles of its children (ids of classes merged away since,
+invocations that still carry dropped arguments) is looked up exactly like the e-node built from the canonical handles —
+`find_enode` is idempotent (`Proofs/LookupFind.lean`, from `find_idem`), for every state whose union-find passes `ufOK` -/
+theorem lookup_ignores_stale_handles {s : Snap} (h : Snap.checkInv s = true) {n n' : Node}
+    (hf : Snap.findNode s n = some n') : Snap.lookup s n' = Snap.lookup s n := by
+  have hok : Snap.ufOK s = true := by
+    unfold Snap.checkInv at h
+    simp only [Bool.and_eq_true] at h
+    exact h.1.1
+  exact Snap.lookup_findNode hok hf
 
 end SV.C09
